@@ -55,7 +55,7 @@ func c13(env *core.Env) {
 	m := reg.NewModel(false)
 	m.StrictCodes = false
 	cfg := reg.GenConfig{
-		Repos:   pickSome(c, "repos", []string{"a", "a/b", "x", "foo", "pre", "fix", "pre2/a", "blobs/uploads", "zz"}, 1, 4),
+		Repos:   pickSome(c, "repos", []string{"a", "a/b", "x", "foo", "pre", "fix", "pre2/a", "blobs/uploads", "zz", "pre/fix", "pre/fix/a", "x/y/z/w", "pre/a"}, 1, 4),
 		Tags:    pickSome(c, "tags", tagNames, 1, 2),
 		MaxBlob: 40,
 		Weights: reg.DefaultWeights(),
@@ -87,6 +87,7 @@ func c13(env *core.Env) {
 			rs := []ociauth.ResourceScope{
 				{ResourceType: ociauth.TypeRepository, Resource: "a/b", Action: ociauth.ActionPull},
 				{ResourceType: ociauth.TypeRepository, Resource: op.Repo, Action: ociauth.ActionPush},
+				{ResourceType: ociauth.TypeRepository, Resource: prefix + "/nested", Action: ociauth.ActionPull}, // a view name that repeats the prefix
 				{ResourceType: ociauth.TypeRegistry, Resource: "catalog", Action: "*"},
 				{ResourceType: "other", Resource: "thing", Action: "do"},
 			}
